@@ -214,10 +214,16 @@ def check_plan(scn, plan, res, cos, pos, text_of, by_id):
         # (c) executed simple statements appear in order among the statement starts
         if not ref.resumed and rout['trap'] is None:
             coded = {v[2] for v in mi.stmt_starts.values()}
-            # (a statement the optimiser left without code has no start)
+            per_line = {}
+            for i_, p_ in pos.items():
+                if isinstance(i_, int):
+                    per_line[p_[0]] = per_line.get(p_[0], 0) + 1
+            # (a statement the optimiser left without code has no start; on a
+            # line shared by several statements one cannot tell which of them
+            # kept its code, so only statements on a line of their own count)
             want_lines = [pos[i][0] for i in ref.stmt_trace
                           if i in by_id and by_id[i]['k'] in SIMPLE and i in pos
-                          and pos[i][0] in coded]
+                          and pos[i][0] in coded and per_line.get(pos[i][0]) == 1]
             j = 0
             for ln in starts:
                 if j < len(want_lines) and ln == want_lines[j]:
